@@ -46,6 +46,7 @@ class Exec:
         self._ent = {}           # id(obj) -> (handle name of owner entries list, k)
         self._keep = []          # strong refs so ids are never reused within an execution
         self.adopted = {}
+        self.failed_flatten = {}  # step index -> True iff the injected failure fired inside flatten
         self.sub_placements = {}  # step index -> what the implementation linked a nested copy to
         self.placements = []     # per ADD_OP: what the implementation linked the new operation to
         self.fired = []          # (step index, gate name) for sink failures that fired
@@ -197,6 +198,27 @@ class Exec:
             else:
                 r = h.obj.apply_modifiers_to_self()
                 self.handles[st["as"]] = Handle(st["as"], "comp", r, h.entries, origin=h.origin or h.name)
+        elif op == "FLATTEN" and st.get("fail"):
+            # an exception in the middle of the rebuild: the n-th re-placed operation fails
+            h = self.handles[st["c"]]
+            W = self.W
+            W.rebuild_gate_on = True
+            W.arm(int(st["fail"]))
+            failed = False
+            r = None
+            try:
+                r = h.obj.flatten() if h.kind == "decl" else h.obj.apply_flatten_to_self()
+            except SimSinkError:
+                failed = True
+            finally:
+                W.rebuild_gate_on = False
+                W.disarm()
+            self.failed_flatten[i] = failed
+            if failed:
+                self.fired.append((i, "graph.add"))
+                self.handles[st["as"]] = Handle(st["as"], h.kind, h.obj, h.entries, origin=h.origin or h.name)
+            else:
+                self.handles[st["as"]] = Handle(st["as"], h.kind, r, h.entries, origin=h.origin or h.name)
         elif op == "FLATTEN":
             h = self.handles[st["c"]]
             if h.kind == "decl":
